@@ -71,6 +71,8 @@ def one_grammar(spec, R, batch, stats, quick):
         g = extract_grammar(b.considered, b.start)
         decl = declared_grammar(list(b.classes.values()), b.start)
         d = int(g.get_min_tree_depth()) + 2
+        if not any(c["abstract"] and c["name"] == b.spec["start"] for c in b.spec["classes"]):
+            d += 1
         evs = []
         rs = NativeRandomSource(R.randint(0, 10 ** 6))
         reps = [
@@ -84,7 +86,8 @@ def one_grammar(spec, R, batch, stats, quick):
         n0 = 3 if quick else 5
         nops = 4 if quick else 12
         if not any(c["abstract"] and c["name"] == spec["start"] for c in b.spec["classes"]):
-            nops *= 6       # concrete starting symbol: tree crossover really exchanges subtrees; go several generations deep
+            nops *= 15      # concrete starting symbol: tree crossover really exchanges subtrees; go several generations deep
+            n0 += 3
         for rname, kind, rep in reps:
             pool = []
             for _ in range(n0):
